@@ -283,7 +283,8 @@ PROPS = {
     },
     "C10": {
         "targets": ["spowtd.load:populate_grid_time", "spowtd.load:populate_rainfall_intensity",
-                    "spowtd.load:populate_evapotranspiration", "spowtd.load:populate_water_level"],
+                    "spowtd.load:populate_evapotranspiration", "spowtd.load:populate_water_level", "spowtd.load:load_data"],
+        "structural": ["pyvc.structural:schema_obligations"],
         "bounded": [{"run": "bounded.load_checks:run_C10",
                      "what": "table level (validation of the SQL / np.interp contracts and stand-in for the glue in load_data): real "
                              "load_data on generated files (water level on the same / a different step than rainfall, aligned or not, "
@@ -296,14 +297,17 @@ PROPS = {
                       "label exactly when no gap separates them, writes the label updates for the labelled instants in order, and writes "
                       "one water level for every labelled instant before the closing one, equal to the straight-line interpolation "
                       "between two adjacent source measurements that bracket it (loop invariant over the stretches with a ghost map "
-                      "instant -> stretch; np.interp through an assumed contract). The glue of load_data (csv reading, call order) is "
-                      "covered by the table-level stand-in.",
+                      "instant -> stretch; np.interp through an assumed contract). load_data itself is under contract: the staging "
+                      "inserts, then the four populate_* functions in order, each precondition discharged at its call site (what "
+                      "populate_water_level requires of the grid follows from what populate_grid_time ensures), every stored grid "
+                      "instant offered to populate_water_level, one commit at the very end; csv / file objects are opaque.",
         "level_note": "SQL statements enter through assumed contracts (row order of the staging tables = rowid order = epoch order is one "
                       "of them); np.interp is an assumed contract (piecewise-linear interpolant, needs increasing abscissae: an obligation).",
     },
     "C11": {
         "targets": ["spowtd.load:generate_timestamped_rows", "spowtd.load:populate_grid_time",
-                    "spowtd.load:populate_evapotranspiration"],
+                    "spowtd.load:populate_evapotranspiration", "spowtd.load:load_data"],
+        "structural": ["pyvc.structural:schema_obligations"],
         "bounded": [{"run": "bounded.load_checks:run_C11",
                      "what": "validation of the assumed pytz contract on sampled zones (fixed-offset, DST, half-hour, zones whose local mean "
                              "time differs from today's offset) x seeded instants, and the three refusals through the real load_data "
@@ -311,8 +315,10 @@ PROPS = {
         "level_text": "Unbounded proof, relative to the assumed contract of tz.localize (the instant whose rendering in the zone is the given "
                       "wall time), that every yielded row starts with an integer epoch rendering back to the input text and passes the other "
                       "fields through, and that a non-integer number of seconds is refused; that the non-uniform-step refusal and the "
-                      "missing-ET refusal are reached exactly in those situations and before any write of the function. The 'already "
-                      "populated' guard of load_data is a bounded stand-in.",
+                      "missing-ET refusal are reached exactly in those situations and before any write of the function; and that "
+                      "load_data raises its 'already populated' ValueError exactly when the database holds a table, before anything "
+                      "is written, and otherwise runs the schema script (structural obligation: CREATE statements only) on the "
+                      "empty database.",
         "level_note": "Correctness of pytz's tables for all IANA zones is the dependency's; validated on sampled zones only.",
     },
     "C19": {
